@@ -372,6 +372,9 @@ pub enum EndPlan {
     SeqKeep(Vec<Op>),
     /// two tasks on split halves: (writer ops, reader ops)
     Split(Vec<Op>, Vec<Op>),
+    /// the stream is bridged (`into_copy_bidirectional`, as penguin's client and server do) to an
+    /// in-memory pipe of the given capacity; the operations run on the far end of that pipe
+    Bridged(usize, Vec<Op>),
 }
 
 pub fn plan_str(p: &EndPlan) -> String {
@@ -379,6 +382,7 @@ pub fn plan_str(p: &EndPlan) -> String {
         EndPlan::Seq(o) => format!("seq[{}]", op_str(o)),
         EndPlan::SeqKeep(o) => format!("seq*[{}]", op_str(o)),
         EndPlan::Split(w, r) => format!("split[w:{} | r:{}]", op_str(w), op_str(r)),
+        EndPlan::Bridged(c, o) => format!("bridged({c})[{}]", op_str(o)),
     }
 }
 
@@ -396,6 +400,25 @@ pub fn start_end(sp: &Spawner, obs: &ObsRef, stream: MuxStream, tag: Tag, side: 
             sp.spawn(name, GROUP_NONE, async move {
                 run_ops(stream, o2.clone(), tag, side, wdir, ops, keep).await;
                 o2.borrow_mut().end(&n2);
+            });
+        }
+        EndPlan::Bridged(cap, ops) => {
+            let (local, app) = tokio::io::duplex(cap.max(1));
+            let sfx = if side == 0 { "a" } else { "b" };
+            let bname = format!("s{tag}.{sfx}.bridge");
+            let aname = format!("s{tag}.{sfx}");
+            obs.borrow_mut().begin(&bname);
+            obs.borrow_mut().begin(&aname);
+            let (o1, o2) = (obs.clone(), obs.clone());
+            let (b2, a2) = (bname.clone(), aname.clone());
+            sp.spawn(bname, GROUP_NONE, async move {
+                let r = stream.into_copy_bidirectional(local).await;
+                o1.borrow_mut().ev(Ev::Note(format!("bridge {b2} ended: {:?}", r.map_err(|e| e.kind()))));
+                o1.borrow_mut().end(&b2);
+            });
+            sp.spawn(aname, GROUP_NONE, async move {
+                run_ops(app, o2.clone(), tag, side, wdir, ops, false).await;
+                o2.borrow_mut().end(&a2);
             });
         }
         EndPlan::Split(wops, rops) => {
